@@ -118,19 +118,32 @@ def _in_handler(h, n):
     return 'o' in n and h['b'] <= n['o'] <= h['e']
 
 
-def _from_current_exception(fn, aid, depth=0):
-    """expression derives from std::current_exception(): contains the call, or names a local initialised from it."""
+def _origin_calls(fn, aid, callq, depth=0):
+    """calls of `callq` the expression derives from: contained in it, or in the initialiser / an assigned value of a
+    local variable it names (named locals for sub-expressions are looked through)."""
+    out = []
     for x in fn.subtree(aid):
         n = fn.nodes[x]
-        if n.get('k') == 'call' and n.get('q') == 'std::current_exception':
-            return True
-        if n.get('k') == 'var' and n.get('vk') in ('local', None) and depth < 3:
+        if n.get('k') == 'call' and n.get('q') == callq:
+            out.append(n)
+        elif n.get('k') == 'var' and n.get('vk') in ('local', None) and depth < 3:
             for m in fn.all_nodes():
                 if m.get('k') == 'decl':
                     for v in m['vars']:
-                        if v['d'] == n.get('d') and isinstance(v.get('init'), int) and _from_current_exception(fn, v['init'], depth + 1):
-                            return True
-    return False
+                        if v['d'] == n.get('d') and isinstance(v.get('init'), int):
+                            out.extend(_origin_calls(fn, v['init'], callq, depth + 1))
+                elif m.get('k') == 'assign' or (m.get('k') == 'call' and m.get('op') == '='):
+                    lhs = m.get('lhs', m.get('recv'))
+                    l = fn.sn(lhs) if lhs is not None else None
+                    rhs = m.get('rhs', (m.get('args') or [None])[-1])
+                    if l is not None and l.get('k') == 'var' and l.get('d') == n.get('d') and isinstance(rhs, int):
+                        out.extend(_origin_calls(fn, rhs, callq, depth + 1))
+    return out
+
+
+def _from_current_exception(fn, aid, depth=0):
+    """expression derives from std::current_exception(): contains the call, or names a local initialised from it."""
+    return bool(_origin_calls(fn, aid, 'std::current_exception'))
 
 
 def _must_elems(fb, f, is_target, depth=3, memo=None):
@@ -534,26 +547,86 @@ def rule_reader_state(fb, R, E):
         return
     closeq = READER + '::close'
     methods = _dedupe([f for f in fb.functions if f.cls == READER and f.has_cfg and not f.is_lambda and f.kind == 'method'])
+    all_names = {e['name'] for e in en['enumerators']}
+
+    def callee_methods(f, c):
+        if c.get('k') != 'call' or not c.get('u') or c.get('rcls') != READER or c.get('q') == closeq:
+            return []
+        return [g for g in fb.by_usr.get(c['u'], []) if g.has_cfg and g.kind == 'method']
+
+    called = set()
+    for f in methods:
+        for c in f.all_nodes():
+            for g in callee_methods(f, c):
+                called.add(g.q)
+
+    def sites(f, depth=0):
+        """[(node in f, role, statuses admitted further down, path [(fn, node)...] to the real access)]: direct accesses of
+        the result queue / header future, and calls of helper methods of the class that contain one."""
+        out = []
+        for c in f.all_nodes():
+            if c.get('k') != 'call' or 'q' not in c:
+                continue
+            if c.get('recv') is not None and fn_field(f, c['recv']) is not None:
+                if c['q'] in (QW + '::pop', QUEUE + '::wait_and_pop'):
+                    out.append((c, 'pop', set(all_names), [(f, c)]))
+                    continue
+                if c['q'] in ('std::future::get', 'std::shared_future::get'):
+                    out.append((c, 'future-get', set(all_names), [(f, c)]))
+                    continue
+            if depth < 3:
+                for g in callee_methods(f, c):
+                    for (c2, role, inner, path) in sites(g, depth + 1):
+                        out.append((c, role, inner & _allowed_status(g, c2['id'], sf, en), [(f, c)] + path))
+        return out
+
+    def handler_actions(f, h):
+        """elements inside handler h that close the reader / store status error / store another status; `both` are calls of
+        a helper of the class that closes and afterwards stores error on every path (counts as close followed by error)."""
+        def is_close(fn, c):
+            return c.get('q') == closeq
+        closes = {e for e in _must_elems(fb, f, is_close) if _in_handler(h, f.nodes[e])}
+        errs, others, both = set(), set(), set()
+        for x in f.all_nodes():
+            if not _in_handler(h, x):
+                continue
+            if x.get('k') == 'assign' and _is_status_member(f, x['lhs'], sf):
+                (errs if _enum_of(f, x['rhs'], en) == 'error' else others).add(elem_of(f, x['id']))
+            elif x.get('k') == 'call' and x.get('q') != closeq:
+                for g in callee_methods(f, x):
+                    st = [y for y in g.all_nodes() if y.get('k') == 'assign' and _is_status_member(g, y['lhs'], sf)]
+                    if not st or must_pass(g, g.entry, {elem_of(g, y['id']) for y in st}) is not None:
+                        continue
+                    e_el = {elem_of(g, y['id']) for y in st if _enum_of(g, y['rhs'], en) == 'error'}
+                    o_el = {elem_of(g, y['id']) for y in st} - e_el
+                    xe = elem_of(f, x['id'])
+                    if xe in closes:
+                        gc = _must_elems(fb, g, is_close)
+                        # error stored after the close inside the helper, and it is the last status written
+                        after = e_el and all(path_search(g, c, _exit_t, lambda e: e in e_el) is None for c in gc) \
+                            and all(path_search(g, e0, lambda e: e in gc or e in o_el, lambda e: False) is None for e0 in e_el)
+                        if after:
+                            both.add(xe)
+                            errs.add(xe)
+                        else:
+                            others.add(xe)
+                    else:
+                        (errs if not o_el else others).add(xe)
+        return closes, errs, others, both
+
     nacc = 0
     for f in methods:
-        if f.q == closeq:
-            continue
-        accs = []
-        for n in f.all_nodes():
-            if n.get('k') != 'call' or n.get('recv') is None or fn_field(f, n['recv']) is None:
-                continue
-            if n.get('q') == QW + '::pop' or n.get('q') == QUEUE + '::wait_and_pop':
-                accs.append((n, 'pop'))
-            elif n.get('q') in ('std::future::get', 'std::shared_future::get'):
-                accs.append((n, 'future-get'))
-        for (n, role) in accs:
+        if f.q == closeq or f.q in called:
+            continue            # helpers are examined through the API functions that call them
+        for (n, role, inner, path) in sites(f):
             nacc += 1
-            allowed = _allowed_status(f, n['id'], sf, en)
+            allowed = _allowed_status(f, n['id'], sf, en) & inner
             stale = None
-            for wnode in _status_writes(f, sf, closeq):
-                el = elem_of(f, n['id'])
-                if path_search(f, wnode['id'], lambda e: e == el, lambda e: False) is not None:
-                    stale = wnode
+            for (g, c) in path:
+                el = elem_of(g, c['id'])
+                for wnode in _status_writes(g, sf, closeq):
+                    if path_search(g, wnode['id'], lambda e, el=el: e == el, lambda e: False) is not None:
+                        stale = (g, wnode)
             if role == 'pop':
                 ok = allowed == {'okay'}
                 msg = ('%s pops the result queue although the status may be %s (after an error / close / eof no further data may be '
@@ -563,14 +636,17 @@ def rule_reader_state(fb, R, E):
                 msg = '%s waits on the header future although the status may be error' % f.q
             if stale is not None:
                 ok = False
-                msg = '%s: the status is changed at %s on a path that leads back to the %s without re-testing it' % (f.q, f.loc(stale['id']), role)
+                msg = '%s: the status is changed at %s on a path that leads back to the %s without re-testing it' % (f.q, stale[0].loc(stale[1]['id']), role)
             R.check(ok, 'S1-status-gates-access', '%s#%s' % (f.q, role), f.loc(n['id']), msg)
-            # S2: the catch-all around it
+            # S2: the innermost catch (...) around the access, at whichever level of the call path it stands
             cov = None
-            for t in sorted(f.enclosing_tries(n['id']), key=lambda t: -t['b']):
-                for h in t['handlers']:
-                    if h.get('all'):
-                        cov = (t, h)
+            for (g, c) in reversed(path):
+                for t in sorted(g.enclosing_tries(c['id']), key=lambda t: -t['b']):
+                    for h in t['handlers']:
+                        if h.get('all'):
+                            cov = (g, t, h)
+                            break
+                    if cov:
                         break
                 if cov:
                     break
@@ -579,41 +655,43 @@ def rule_reader_state(fb, R, E):
                 R.bad('S2-handler-closes-marks-error-rethrows', base + ':exists', f.loc(n['id']),
                       '%s: the %s is not inside a try with catch (...); a stored exception would leave the Reader open in status okay' % (f.q, role))
                 continue
-            t, h = cov
-            hb = handler_entry_block(f, h)
+            hf, t, h = cov
+            hb = handler_entry_block(hf, h)
             if hb is None:
-                R.broken('%s: handler block not found' % f.q)
+                R.broken('%s: handler block not found' % hf.q)
                 continue
-            rethrows = {elem_of(f, x['id']) for x in _rethrow_nodes(f, h)}
-            closes = {elem_of(f, c['id']) for c in _calls(f, q=closeq) if _in_handler(h, c)}
-            errs = set()
-            others = set()
-            for s in f.all_nodes():
-                if s.get('k') == 'assign' and _is_status_member(f, s['lhs'], sf) and _in_handler(h, s):
-                    (errs if _enum_of(f, s['rhs'], en) == 'error' else others).add(elem_of(f, s['id']))
-            w = handler_always_rethrows(f, h)
-            R.check(w is None, 'S2-handler-closes-marks-error-rethrows', base + ':rethrows', f.loc(n['id']),
-                    'the catch (...) in %s must end in `throw;` on every path (the error has to reach the caller): %s' % (f.q, _dp(f, w)))
-            w = path_search(f, hb, lambda e: e in rethrows or _exit_t(e), lambda e: e in closes, from_block_start=True)
-            R.check(bool(closes) and w is None, 'S2-handler-closes-marks-error-rethrows', base + ':closes', f.loc(n['id']),
-                    'the catch (...) in %s must call close() on every path (threads keep running, queues stay full otherwise)' % f.q)
+            rethrows = {elem_of(hf, x['id']) for x in _rethrow_nodes(hf, h)}
+            closes, errs, others, both = handler_actions(hf, h)
+            w = handler_always_rethrows(hf, h)
+            R.check(w is None, 'S2-handler-closes-marks-error-rethrows', base + ':rethrows', hf.loc(n['id']) if hf is f else hf.site,
+                    'the catch (...) in %s must end in `throw;` on every path (the error has to reach the caller): %s' % (hf.q, _dp(hf, w)))
+            w = path_search(hf, hb, lambda e: e in rethrows or _exit_t(e), lambda e: e in closes, from_block_start=True)
+            R.check(bool(closes) and w is None, 'S2-handler-closes-marks-error-rethrows', base + ':closes', hf.site,
+                    'the catch (...) in %s must call close() on every path (threads keep running, queues stay full otherwise)' % hf.q)
             bad = not errs
-            for c in closes:
-                if path_search(f, c, lambda e: e in rethrows or _exit_t(e), lambda e: e in errs) is not None:
+            for c in closes - both:
+                if path_search(hf, c, lambda e: e in rethrows or _exit_t(e), lambda e: e in errs) is not None:
                     bad = True
             for e0 in errs:
-                if path_search(f, e0, lambda e: e in closes or e in others, lambda e: e in rethrows) is not None:
+                if path_search(hf, e0, lambda e: e in closes or e in others, lambda e: e in rethrows) is not None:
                     bad = True
-            R.check(not bad, 'S2-handler-closes-marks-error-rethrows', base + ':marks-error', f.loc(n['id']),
+            R.check(not bad, 'S2-handler-closes-marks-error-rethrows', base + ':marks-error', hf.site,
                     'the catch (...) in %s must store status error after close() (close() stores closed) and before rethrowing, so that '
-                    'no later call delivers data or a header' % f.q)
+                    'no later call delivers data or a header' % hf.q)
     if nacc == 0:
         R.broken('%s: no queue pop / future get found in its methods' % READER)
 
     # ---- S3 close()
     for f in _dedupe(fb.fns(closeq)):
-        closed = {elem_of(f, s['id']) for s in f.all_nodes()
-                  if s.get('k') == 'assign' and _is_status_member(f, s['lhs'], sf) and _enum_of(f, s['rhs'], en) == 'closed'}
+        def stores_closed(g):
+            st = {elem_of(g, y['id']) for y in g.all_nodes()
+                  if y.get('k') == 'assign' and _is_status_member(g, y['lhs'], sf) and _enum_of(g, y['rhs'], en) == 'closed'}
+            return st
+        closed = stores_closed(f)
+        for x in f.all_nodes():          # a helper of the class that stores closed on every path
+            for g in callee_methods(f, x):
+                if stores_closed(g) and must_pass(g, g.entry, stores_closed(g)) is None:
+                    closed.add(elem_of(f, x['id']))
 
         def ends(e, f=f):
             if _exit_t(e):
@@ -623,33 +701,66 @@ def rule_reader_state(fb, R, E):
         w = path_search(f, f.entry, ends, lambda e: e in closed, from_block_start=True)
         R.check(bool(closed) and w is None, 'S3-close-stores-closed', f.q + '#status-closed', f.site,
                 'close() must store status closed on every path, including the throwing ones: %s' % _dp(f, w))
-        # join = call on a member whose callee closure joins a thread; shutdown = call whose closure shuts the result queue down
-        joins, shuts, stops = [], [], []
-        for n in f.all_nodes():
-            if n.get('k') != 'call' or n.get('recv') is None or 'u' not in n:
-                continue
-            fld = fn_field(f, n['recv'])
-            if fld is None:
-                continue
-            fd = rec.field(fld)
-            cl = set()
-            for g in fb.by_usr.get(n['u'], []):
-                cl |= fb.callees_closure(g, 4) | {g.q}
-            cl.add(n['q'])
-            if 'std::thread::join' in cl:
-                joins.append(n)
-            elif QUEUE + '::shutdown' in cl and fd is not None and 'osmium::memory::Buffer' in fd['tC']:
-                shuts.append(n)
-            elif fd is not None and fd.get('rec') == RTM:
-                stops.append(n)
-        ok = bool(joins) and bool(shuts) and all(any(f.elem_dominates(s['id'], j['id']) for s in shuts) for j in joins)
-        R.check(ok, 'S3-close-shutdown-before-join', f.q + '#shutdown-before-join', joins[0] and f.loc(joins[0]['id']) if joins else f.site,
+
+        # join = call whose callee closure joins a thread; shutdown = call whose closure shuts the result queue down (and does
+        # not join).  Helpers of the class are treated as inlined: a join inside a helper is fine if a shutdown precedes it
+        # inside the helper or precedes the call of the helper.
+        def closure_of(g0, n):
+            cl = {n['q']}
+            for g in fb.by_usr.get(n.get('u'), []):
+                cl |= fb.callees_closure(g, 5) | {g.q}
+            return cl
+        join_fns = []
+
+        def order_ok(g, depth=0):
+            events = []
+            for n in g.all_nodes():
+                if n.get('k') != 'call' or 'u' not in n:
+                    continue
+                cl = closure_of(g, n)
+                if 'std::thread::join' in cl:
+                    events.append((n, 'join'))
+                elif QUEUE + '::shutdown' in cl:
+                    fld = fn_field(g, n['recv']) if n.get('recv') is not None else None
+                    fd = rec.field(fld) if fld else None
+                    if fd is None or 'osmium::memory::Buffer' in fd['tC']:
+                        events.append((n, 'shut'))
+            ok = True
+            for (j, k) in events:
+                if k != 'join':
+                    continue
+                helpers = callee_methods(g, j)
+                if not helpers:
+                    for t in fb.by_usr.get(j['u'], []):
+                        if t.has_cfg and t not in join_fns:
+                            join_fns.append(t)
+                if any(k2 == 'shut' and g.elem_dominates(s2['id'], j['id']) for (s2, k2) in events):
+                    if helpers and depth < 3:
+                        for h2 in helpers:
+                            order_ok(h2, depth + 1)          # only to collect the joining functions
+                    continue
+                if helpers and depth < 3 and all(order_ok(h2, depth + 1) for h2 in helpers):
+                    continue
+                ok = False
+            return ok and (depth > 0 or any(k == 'join' for (_n, k) in events))
+        ok = order_ok(f)
+        R.check(ok, 'S3-close-shutdown-before-join', f.q + '#shutdown-before-join', f.site,
                 'close() must shut the parser result queue down before joining the read thread: a parser blocked on the full result queue '
                 'never drains the input queue, the read thread never finishes its push, join() never returns (the 2.17.3 deadlock)')
         # the join inside the manager: guarded + stop first
-        for j in joins:
-            for g in _dedupe(fb.by_usr.get(j['u'], [])):
+        seenj = set()
+        work = list(join_fns)
+        while work:
+            g = work.pop()
+            if id(g) in seenj:
+                continue
+            seenj.add(id(g))
+            if _calls(g, q='std::thread::join'):
                 _join_discipline(fb, R, g)
+            else:
+                for n in g.all_nodes():
+                    if n.get('k') == 'call' and n.get('u') and 'std::thread::join' in closure_of(g, n):
+                        work.extend(t for t in fb.by_usr.get(n['u'], []) if t.has_cfg)
         # child process
         wp = [n for n in f.all_nodes() if n.get('k') == 'call' and n.get('q') in ('waitpid', '::waitpid')]
         for wcall in wp:
@@ -698,16 +809,75 @@ def _join_discipline(fb, R, g):
                 '%s must raise the stop flag before joining, otherwise the read thread reads the whole input first' % g.q)
 
 
+def _controlling_flag_reads(f):
+    """elements of f that read an atomic<bool> member and whose value decides a branch: the read stands in a branch
+    condition, or in the initialiser / assigned value of a local variable that a branch condition names."""
+    reads = [n for n in f.all_nodes() if n.get('k') == 'call' and n.get('q', '').startswith(('std::atomic', 'std::__atomic_base'))
+             and n['q'].rsplit('::', 1)[-1] in ('load', '(conv)', 'operator bool') and n.get('recv') is not None and fn_field(f, n['recv'])]
+    cond_nodes = set()
+    cond_vars = set()
+    for b in f.blocks.values():
+        if 'cond' in b:
+            for x in f.subtree(b['cond']):
+                cond_nodes.add(x)
+                nx = f.nodes[x]
+                if nx.get('k') == 'var' and nx.get('vk') in ('local', None):
+                    cond_vars.add(nx.get('d'))
+    out = set()
+    for r in reads:
+        if r['id'] in cond_nodes:
+            out.add(elem_of(f, r['id']))
+            continue
+        for m in f.all_nodes():
+            if m.get('k') == 'decl':
+                for v in m['vars']:
+                    if v['d'] in cond_vars and isinstance(v.get('init'), int) and r['id'] in f.subtree(v['init']):
+                        out.add(elem_of(f, r['id']))
+            elif m.get('k') == 'assign':
+                l = f.sn(m['lhs'])
+                if l is not None and l.get('k') == 'var' and l.get('d') in cond_vars and r['id'] in f.subtree(m['rhs']):
+                    out.add(elem_of(f, r['id']))
+    # gate variables: locals named in branch conditions whose every write is flag-derived or the constant false; a test of
+    # such a variable is as good as a test of the flag (named boolean instead of break)
+    read_ids = {r['id'] for r in reads}
+    writes = {}
+    for m in f.all_nodes():
+        if m.get('k') == 'decl':
+            for v in m['vars']:
+                if v['d'] in cond_vars:
+                    writes.setdefault(v['d'], []).append(v.get('init') if isinstance(v.get('init'), int) else None)
+        elif m.get('k') == 'assign':
+            l = f.sn(m['lhs'])
+            if l is not None and l.get('k') == 'var' and l.get('d') in cond_vars:
+                writes.setdefault(l['d'], []).append(m['rhs'] if m.get('op') == '=' else None)
+        elif m.get('k') == 'unop' and m.get('op') in ('++', '--'):
+            l = f.sn(m['sub'])
+            if l is not None and l.get('k') == 'var' and l.get('d') in cond_vars:
+                writes.setdefault(l['d'], []).append(None)
+    gates = set()
+    for d, ws in writes.items():
+        derived = [w for w in ws if w is not None and read_ids & set(f.subtree(w))]
+        rest = [w for w in ws if w not in derived]
+        if derived and all(w is not None and f.const_value(w) == 0 for w in rest):
+            gates.add(d)
+    for b in f.blocks.values():
+        if 'cond' in b:
+            for x in f.subtree(b['cond']):
+                nx = f.nodes[x]
+                if nx.get('k') == 'var' and nx.get('d') in gates:
+                    out.add(elem_of(f, x))
+    out.discard(None)
+    return out
+
+
 def _flag_loop_guarded(f, nid):
-    """element nid of f executes only inside a loop, after a test of an atomic<bool> member came out false."""
-    if not [l for l in f.loops if f.in_range(nid, l['b'], l['e'])]:
-        return False
-    for (cn, sense, _b) in guards_of(f, nid):
-        x = f.sn(cn)
-        if (not sense) and x is not None and x.get('k') == 'call' and x.get('q', '').startswith(('std::atomic', 'std::__atomic_base')) \
-                and x.get('recv') is not None and fn_field(f, x['recv']):
-            return True
-    return False
+    """(between two executions, before the first execution): a branch-deciding read of the stop flag lies on every path
+    from element nid back to itself / from the function entry to nid."""
+    el = elem_of(f, nid)
+    C = _controlling_flag_reads(f)
+    cyc = path_search(f, el, lambda e: e == el, lambda e: e in C) is None
+    ent = path_search(f, f.entry, lambda e: e == el, lambda e: e in C, from_block_start=True) is None
+    return cyc, ent
 
 
 def rule_read_loop(fb, R):
@@ -736,7 +906,10 @@ def rule_read_loop(fb, R):
                                 fns.append(g)
 
         def guarded(f, nid, depth=0):
-            if _flag_loop_guarded(f, nid):
+            cyc, ent = _flag_loop_guarded(f, nid)
+            if not cyc:
+                return False
+            if ent:
                 return True
             cs = callers.get(id(f), [])
             return bool(cs) and depth < 4 and all(guarded(g, c['id'], depth + 1) for (g, c) in cs)
@@ -1054,10 +1227,8 @@ def rule_queue_helpers(fb, R):
         if pushes:
             prom = None
             for c in pushes:
-                for x in f.subtree(c['id']):
-                    nx = f.nodes[x]
-                    if nx.get('k') == 'call' and nx.get('q') == 'std::promise::get_future':
-                        prom = f.root_var(nx['recv'])
+                for gf in _origin_calls(f, c['args'][0] if c.get('args') else c['id'], 'std::promise::get_future'):
+                    prom = f.root_var(gf['recv'])
             fulfil = {elem_of(f, c['id']) for c in f.all_nodes() if c.get('k') == 'call' and
                       c.get('q') == ('std::promise::set_exception' if role == 'exception' else 'std::promise::set_value')
                       and prom is not None and f.root_var(c['recv']) == prom
